@@ -36,7 +36,11 @@ RULE = ("seven case families: (mask) connected hole-free masks - 4/8-"
         "channel coordinates, with translation, axis swap, reversal, "
         "rotation; (volrev/volume) non-negative radii/heights in units of "
         "1/8, contours with dyadic centroids, spheres/ellipsoids of growing "
-        "resolution; (bright) 1-3 events of 8/16 bit images, backgrounds, "
+        "resolution; (bright) 1-3 events; image and background dtypes uint8, "
+        "uint16, int16, int32, int64, float32, float64 (integer gray values "
+        "over the full range of the dtype incl. the int8/int16/uint16/int32 "
+        "boundaries, background near / anywhere / above the image), masks "
+        "selecting one pixel, all pixels or a random subset, "
         "offsets as None/scalar/list/per-event array, single 2D/3D/list "
         "containers; (crosstalk) non-negative dyadic spill matrices incl. "
         "negative and singular ones, scalar and array signals; (sequence) "
@@ -96,6 +100,10 @@ ASSUMPTIONS = [
     "multiples of 1/8, spill coefficients multiples of 1/64",
     "spill matrices: non-negative entries, |det| >= 1/64 unless exactly "
     "singular",
+    "gray values are integers (float images/backgrounds hold integers they "
+    "represent exactly; get_bright_bc/_perc cast the image to int, a "
+    "fractional part of a float image would be truncated - not claimed); "
+    "|values| <= 2^40 so that image - background fits 64 bit",
     "principal inertia ratio: contours within 4096 px of the origin "
     "(get_inert_ratio_prnc rotates the uncentred float contour; its "
     "rounding error grows with the fourth power of the distance: 4e-5 at "
@@ -535,21 +543,70 @@ def gen_volume(rng, pool_contours):
                 container=rng.choice(["single", "list"]))
 
 
+BRIGHT_RANGE = {
+    # integer gray values; float dtypes hold integers they represent exactly
+    "uint8": (0, 255), "uint16": (0, 65535), "int16": (-32768, 32767),
+    "int32": (-2 ** 31, 2 ** 31 - 1), "int64": (-2 ** 40, 2 ** 40),
+    "float32": (-2 ** 24, 2 ** 24), "float64": (-2 ** 40, 2 ** 40)}
+BRIGHT_EDGES = [0, 1, 127, 128, 255, 256, 32767, 32768, 65535, 65536,
+                2 ** 24, 2 ** 31 - 1, 2 ** 32, 2 ** 32 + 5, -1, -128, -129,
+                -32768, -32769, -2 ** 31]
+
+
+def _gray(rng, lo, hi):
+    r = rng.random()
+    if r < 0.25:
+        v = rng.choice(BRIGHT_EDGES)
+        if lo <= v <= hi:
+            return v
+    if r < 0.45:
+        return rng.choice([lo, hi, hi - rng.randint(0, 50),
+                           lo + rng.randint(0, 50)])
+    if r < 0.6 and hi > 40000:
+        return rng.randint(32768, min(hi, 70000))     # above int16
+    return rng.randint(lo, hi)
+
+
 def gen_bright(rng):
     nev = rng.choice([1, 1, 2, 3])
     h, w = rng.randint(1, 6), rng.randint(1, 7)
-    bits = rng.choice([8, 8, 16])
-    hi = 255 if bits == 8 else 4000
+    dtype = rng.choice(["uint8", "uint8", "uint16", "uint16", "int16",
+                        "int32", "int64", "float32", "float64"])
+    bgdtype = dtype if rng.random() < 0.7 else rng.choice(
+        ["uint8", "uint16", "int16", "int32", "int64", "float64"])
+    lo, hi = BRIGHT_RANGE[dtype]
+    blo, bhi = BRIGHT_RANGE[bgdtype]
     fn = rng.choice([0, 1, 1, 2, 2])
+    bgmode = rng.choice(["near", "near", "full", "above"])
     events = []
     for _ in range(nev):
-        mask = [[int(rng.random() < 0.6) for _ in range(w)] for _ in range(h)]
+        mm = rng.random()
+        if mm < 0.12:
+            mask = [[1] * w for _ in range(h)]              # all pixels
+        elif mm < 0.27:
+            mask = [[0] * w for _ in range(h)]              # one pixel
+            mask[rng.randrange(h)][rng.randrange(w)] = 1
+        else:
+            mask = [[int(rng.random() < 0.6) for _ in range(w)]
+                    for _ in range(h)]
         if not any(any(r) for r in mask) and (fn != 0 or rng.random() < 0.7):
             mask[rng.randrange(h)][rng.randrange(w)] = 1
-        img = [[rng.randint(0, hi) for _ in range(w)] for _ in range(h)]
-        base = rng.randint(0, hi)
-        bg = [[max(0, min(hi, base + rng.randint(-20, 20))) for _ in range(w)]
-              for _ in range(h)]
+        if rng.random() < 0.5:
+            img = [[_gray(rng, lo, hi) for _ in range(w)] for _ in range(h)]
+        else:
+            mid = _gray(rng, lo, hi)
+            img = [[max(lo, min(hi, mid + rng.randint(-300, 300)))
+                    for _ in range(w)] for _ in range(h)]
+        if bgmode == "near":
+            base = _gray(rng, blo, bhi)
+            bg = [[max(blo, min(bhi, base + rng.randint(-20, 20)))
+                   for _ in range(w)] for _ in range(h)]
+        elif bgmode == "full":
+            bg = [[_gray(rng, blo, bhi) for _ in range(w)] for _ in range(h)]
+        else:
+            # background above the image: negative differences
+            bg = [[max(blo, min(bhi, img[r][c] + rng.randint(0, 400)))
+                   for c in range(w)] for r in range(h)]
         events.append(dict(mask=mask, img=img, bg=bg))
     container = rng.choice(["single", "array", "array", "list"])
     if container == "single":
@@ -565,8 +622,9 @@ def gen_bright(rng):
         off8 = [o] * len(events)
     else:
         off8 = [rng.randint(-64, 64) for _ in events]
-    return dict(kind="bright", fn=fn, bits=bits, container=container,
-                offkind=offkind, off8=off8, events=events)
+    return dict(kind="bright", fn=fn, dtype=dtype, bgdtype=bgdtype,
+                container=container, offkind=offkind, off8=off8,
+                events=events)
 
 
 def gen_crosstalk(rng):
@@ -1138,10 +1196,17 @@ def do_bright(ctx, case):
     run = ctx.run
     fn = case["fn"]
     ev = case["events"]
-    dt = np.uint8 if case["bits"] == 8 else np.uint16
+    if "dtype" in case:
+        dt, bdt = np.dtype(case["dtype"]), np.dtype(case["bgdtype"])
+    else:       # older corpus entries
+        dt = bdt = np.dtype(np.uint8 if case["bits"] == 8 else np.uint16)
     masks = [np.array(e["mask"], dtype=bool) for e in ev]
     imgs = [np.array(e["img"], dtype=dt) for e in ev]
-    bgs = [np.array(e["bg"], dtype=dt) for e in ev]
+    bgs = [np.array(e["bg"], dtype=bdt) for e in ev]
+    for e, a, b in zip(ev, imgs, bgs):
+        # the arrays hold exactly the integers of the case description
+        assert [int(v) for v in a.flatten()] == [v for r in e["img"] for v in r]
+        assert [int(v) for v in b.flatten()] == [v for r in e["bg"] for v in r]
     offs = [o / 8 for o in case["off8"]]
     ok = case["offkind"]
     if ok == "none":
@@ -1172,6 +1237,10 @@ def do_bright(ctx, case):
         err = e
         res = None
     run.count("bright:fn%d:%s:%s" % (fn, case["container"], ok))
+    run.count("bright:dtype:%s/%s" % (dt.name, bdt.name))
+    if any(v > 32767 for e in ev for r, mr in zip(e["img"], e["mask"])
+           for v, mk in zip(r, mr) if mk):
+        run.count("bright:masked-pixel-above-int16")
     if err is not None:
         known = (fn == 2 and isinstance(err, ValueError) and
                  "truth value" in str(err) and ok == "array" and len(ev) > 1)
